@@ -214,3 +214,44 @@ def result_obs_lit(r, kind):
 
 def json_fp(o):
     return {'name': o['name'], 'level': o['level'], 'bits': o['bits'], 'kind': o['kind'], 'n_idx': len(o['idx']), 'idx_head': o['idx'][:6]}
+
+
+def replay_case(ctx, path, run):
+    """Shared replay of C14 / C15: regenerate the recorded case (the generators are deterministic in (seed, tier)), run it
+    on the implementation and on the model again, and report.  Returns the exit code."""
+    import json
+    import shutil
+    d = json.load(open(path))
+    case = d.get('case') or {}
+    print('replay %s: %s' % (path, d.get('what', '')[:300]))
+    if d.get('kind') in ('proof-obligation', 'harness-error') or not case.get('case_key'):
+        ok, res = core.proof_step(ctx)
+        shutil.rmtree(ctx.workdir, ignore_errors=True)
+        if ok:
+            print('replay: Properties/%s.v checks (%d/%d obligations); the recorded failure carried no input' % (ctx.pid, res['discharged'], res['obligations']))
+            return 0
+        print('VIOLATION property=%s replay=%s no-failing-input-found' % (ctx.pid, path))
+        print('  proof obligation still broken: %s' % ', '.join(res.get('broken', ['?'])))
+        return 1
+    key = case['case_key']
+    shutil.rmtree(ctx.workdir, ignore_errors=True)
+    ctx2 = core.Ctx(ctx.pid, d.get('tier', 'quick'), d.get('seed', 0))
+    try:
+        run(ctx2, only=key)
+    finally:
+        shutil.rmtree(ctx2.workdir, ignore_errors=True)
+    seen = set()
+    for f, what in ctx2.known_hits:
+        if f['id'] not in seen:
+            seen.add(f['id'])
+            print('KNOWN-FINDING: property=%s %s [%s]' % (ctx.pid, f.get('what', what), f['id']))
+    if ctx2.violations:
+        for v in ctx2.violations[:5]:
+            print('VIOLATION property=%s replay=%s' % (ctx.pid, path))
+            print('  ' + v['what'][:300].replace('\n', ' '))
+            mo = (v.get('payload') or {}).get('model_output')
+            if mo:
+                print('  model: ' + str(mo)[:600].replace('\n', ' '))
+        return 1
+    print('replay: case %s no longer fails (seed %s, tier %s)' % (key, d.get('seed'), d.get('tier')))
+    return 0
